@@ -315,7 +315,7 @@ func completenessRule(P *Program, R *Report) {
 				continue
 			}
 			fa := &ForAll{P: P, Spec: ForAllSpec{Coll: is(dpb + "." + row.list), Body: func(f *ssa.Function, l *Loop) *MustPass {
-				return &MustPass{NoInterproc: true, Instr: func(_ *ssa.Function, i ssa.Instruction) bool {
+				return &MustPass{Instr: func(_ *ssa.Function, i ssa.Instruction) bool {
 					mu, ok := i.(*ssa.MapUpdate)
 					return ok && mu.Map == target && desc(mu.Key) == dpb+"."+row.list+"[#i]"
 				}}
@@ -367,7 +367,7 @@ func completenessRule(P *Program, R *Report) {
 		R.decide(rule, kCredBuilder+":field:"+f, "builder field "+f+" is taken from "+w, got[f] == w, "got "+got[f], P.Pos(bf.Pos()))
 	}
 	fa := &ForAll{P: P, Spec: ForAllSpec{Coll: is(nb + ".undisclosedAttributes"), Body: func(f *ssa.Function, l *Loop) *MustPass {
-		return &MustPass{NoInterproc: true, Instr: func(_ *ssa.Function, i ssa.Instruction) bool {
+		return &MustPass{Instr: func(_ *ssa.Function, i ssa.Instruction) bool {
 			mu, ok := i.(*ssa.MapUpdate)
 			if !ok || desc(mu.Map) != nb+".attrRandomizers" || desc(mu.Key) != nb+".undisclosedAttributes[#i]" {
 				return false
